@@ -126,6 +126,12 @@ def _exec_life(sc):
                                      weakly=(bool(sc["facts"]) if sc["extended"] is None else bool(sc["extended"])))
                         if not a["raised"]:
                             evs.append({"ev": "zop", "cond": M.cond_vec(B, A, sig), "result": a["obs"][0] == "T", "text": M.render_cond(B, A)})
+                elif k == "isocf":
+                    evs.append({"ev": "isocf", "o": oi, "result": bool(o.is_ocf())})
+                elif k == "condexist":
+                    f = step[2]
+                    d = o.conditionalize_existing_ranks(M.to_pysmt(f))
+                    evs.append({"ev": "condexist", "o": oi, "worlds": M.models(f, sig), "result": [[int(w, 2) + 1, (-1 if r is None else int(r))] for w, r in d.items()], "formula": M.render(f)})
                 elif k == "cop":
                     B, A = step[2]
                     a = impl.ask(M.make_base(sig, {i + 1: c for i, c in enumerate(sc["base"])}), M.make_queries({1: (B, A)}), "c", "rc2", False)
@@ -140,7 +146,11 @@ def _exec_life(sc):
                         if line:
                             vecs_ = json.loads(line[0][6:])
                             mx = max([max(v) for v in vecs_ if v] + [0])
-                            evs.append({"ev": "front", "vectors": vecs_, "bound": max(1 << max(0, len(sc["base"]) - 1), mx) + 1})
+                            nb = len(sc["base"])
+                            bound = max(1 << max(0, nb - 1), mx) + 1
+                            if nb >= 4:  # keep TLC's quadratic Pareto filter affordable: the box is capped for 4+ conditionals
+                                bound = min(bound, max(mx + 1, 5))
+                            evs.append({"ev": "front", "vectors": vecs_, "bound": bound})
                         else:
                             evs.append({"ev": "front-error", "exc": (p.stderr or "")[-300:]})
                     except subprocess.TimeoutExpired:
@@ -249,9 +259,11 @@ def gen_ops(rng, sig, nw, n_ops, persistence, nqueries=3):
             ops.append(["all", 1])
         elif r < 0.6:
             ops.append(["frank", 1, M.random_formula(sig, 2, rng, consts=0.1)])
-        elif r < 0.8:
+        elif r < 0.75:
             c = infer.gen_cond(sig, rng)
             ops.append(["accept", 1, (c["B"], c["A"])])
+        elif r < 0.8:
+            ops.append(rng.choice([["isocf", 1], ["condexist", 1, M.random_formula(sig, 2, rng, consts=0.1)]]))
         elif persistence:
             ops.append(["save", 1, rng.choice(["ok", "ok", "ok", "nodir", "readonly", "unpicklable"])])
             nsaves += 1
